@@ -54,6 +54,15 @@ CHECKS = {
         ],
         'assumptions': ASSUME_COMMON,
     },
+    'C06': {
+        'level': 'model_checking',
+        'jobs': [
+            T('MC_Sub', 'Sub_quick.cfg'),
+            T('MC_Sub', 'Sub_full.cfg', tiers=('thorough',)),
+            C('sub', 'TestSub', 'TraceSub', n={'quick': 120, 'thorough': 1500}),
+        ],
+        'assumptions': ASSUME_COMMON,
+    },
     'C09': {
         'level': 'model_checking',
         'jobs': [
